@@ -41,5 +41,10 @@ def tasks(ctx):
                          Task(ac.A + "tickFrameSequencer", ac.A + "tickFrameSequencer", overrides=ac.OV, keep=FRAME)])
 
 
+# components whose representation invariants the lemmas above assume in every reachable state (engine/closure.py adds
+# the preservation obligations of all their functions)
+tasks.invariant_packages = ('audio',)
+
+
 def run(tier, seed):
     return run_property("C18", tasks, "proof", tier, seed, BASE_ASSUME, TRUSTED)
